@@ -215,4 +215,6 @@ def run(ck):
         ck.report("corr:T2-body", "the model of the code generator no longer matches the real expansion (%d inputs differ)" % len(t2_mm),
                   dict(broken="correspondence T2 (expansion tokens)", theorems=["C08_root_bound_once", "C08_leaf_evaluations"], first=t2_mm[:3]), no_input=True)
     debug_part(ck)
+    import parsetie
+    parsetie.light_tie(ck, "C08: the compiled programs' expectations read patterns with the model parser")
     ck.assumptions += ["evaluation counts are observed through counting wrappers in generated programs (method calls, method arguments, a user Index impl, an async method under .await with a minimal executor)"]
